@@ -44,6 +44,8 @@ type World struct {
 	DisabledSites map[string]bool
 }
 
+var yieldLog = os.Getenv("OXSIM_YLOG") != ""
+
 type simGrpcServer struct{ port int }
 
 func (s simGrpcServer) Close() error { return nil }
@@ -132,15 +134,21 @@ func (w *World) yield(pc uintptr) {
 		w.yieldMu.Unlock()
 		return
 	}
-	key := ep.Name + "|" + site
-	w.yieldOrd[key]++
-	ord := w.yieldOrd[key]
+	// the decision depends on the goroutine's own identity and its own count of yield-point
+	// visits, not on how concurrently running goroutines happened to interleave
+	gkey := fmt.Sprintf("%s|%x", ep.Name, runtime.SimPath())
 	w.yieldMu.Unlock()
-	h := H(w.R.Seed, "yield", key, ord)
+	// keyed by simulated time, not by a visit counter: how often a goroutine re-checks a
+	// condition within one instant depends on real-time races, the instant does not
+	ord := int64(w.R.Now())
+	h := H(w.R.Seed, "yield", gkey, site, ord)
 	if int(h%100) >= w.YieldPct {
 		return
 	}
 	d := time.Duration(h>>8%uint64(w.YieldMax)) + 1
+	if yieldLog {
+		fmt.Fprintf(os.Stderr, "YIELD t=%v %s %s #%d d=%v\n", w.R.Now(), gkey, site, ord, d)
+	}
 	w.R.Count("yield", 1)
 	w.R.Count("yield@"+site, 1)
 	time.Sleep(d)
